@@ -160,6 +160,8 @@ o:
 			if !ok {
 				break o
 			}
+			// Targets of earlier messages must not receive them again.
+			clear(addrMap)
 			if err = bsw.Switch(ctx, msg, addrMap); err != nil {
 				return err
 			}
